@@ -124,6 +124,9 @@ func c13(c *orch.Ctx) (*report.Result, error) {
 	}
 	dist := report.NewDistincter()
 	var mu sync.Mutex
+	inprocBin, _ := c.Inproc()
+	warmIdx := 0
+	warmRuns := map[string]int{}
 	distinctOrders := map[string]map[string]bool{}
 	totalRuns, accepted := 0, 0
 	outputsSeen := map[string]int{}
@@ -266,6 +269,52 @@ func c13(c *orch.Ctx) (*report.Result, error) {
 				}
 			}
 		}
+		// warm-process stage: the same generation as the reference run, but as the SECOND invocation inside one
+		// process whose first invocation generated something else (other engine / a template extension)
+		if inprocBin != "" {
+			prev := p.Config
+			prev.SkipDate = true
+			prev.SpecOut, prev.RoutesOut = "./out-warmprev/openapi.json", "./out-warmprev/routes/gleece.routes.go"
+			prevMutate := func(doc map[string]any) {}
+			variant := "other-engine-first"
+			if warmIdx%2 == 0 {
+				variant = "template-extension-first"
+				_ = os.WriteFile(filepath.Join(dir, "ext-register.hbs"), []byte("\t// verif extension marker (must not outlive the generation that configured it)\n"), 0o644)
+				prevMutate = func(doc map[string]any) {
+					doc["routesConfig"].(map[string]any)["templateExtensions"] = map[string]any{"RegisterRoutesExtension": "./ext-register.hbs"}
+				}
+			} else {
+				prev.Engine = "echo"
+				prev.AuthPkg = p.ModPath + "/auth/echo"
+			}
+			warmIdx++
+			_ = os.WriteFile(filepath.Join(dir, "cfg-warmprev.json"), []byte(prev.JSONWith(prevMutate)), 0o644)
+			wc := p.Config
+			wc.Engine, wc.SkipDate = "gin", true
+			wc.AuthPkg = p.ModPath + "/auth/gin"
+			wc.SpecOut, wc.RoutesOut = "./out-warm/openapi.json", "./out-warm/routes/gleece.routes.go"
+			_ = os.WriteFile(filepath.Join(dir, "cfg-warm.json"), []byte(wc.JSON()), 0o644)
+			env := append(append([]string{}, c.GoEnv...), "VERIF_ORDER=canon")
+			stepsOut := filepath.Join(c.Work, "genseq-"+p.Name+".json")
+			pr := orch.Run(dir, env, 300, filepath.Join(c.Work, "logs-genseq-"+p.Name), inprocBin, "genseq", "-dir", dir, "-config", "cfg-warmprev.json,cfg-warm.json", "-out", stepsOut)
+			wspec, _ := os.ReadFile(filepath.Join(dir, "out-warm", "openapi.json"))
+			wroutes, _ := os.ReadFile(filepath.Join(dir, "out-warm", "routes", "gleece.routes.go"))
+			totalRuns += 2
+			switch {
+			case pr.Exit != 0 || wspec == nil || wroutes == nil:
+				res.Inc("warm-process stage did not produce outputs (not judged): " + firstLine(lab.Tail(pr.Stderr, 200)))
+			default:
+				res.Evaluations++
+				warmRuns[variant]++
+				cs := caseOf(p, map[string]any{"run": "warm-process", "first_invocation": variant})
+				if string(wspec) != string(base.spec) {
+					res.AddViolation("spec-depends-on-earlier-generation-in-process", map[string]string{"first": variant}, fmt.Sprintf("[%s] spec generated as the 2nd invocation of one process (1st: %s) differs from a fresh process: %s", p.Name, variant, firstLineDiff(string(base.spec), string(wspec))), cs)
+				}
+				if string(wroutes) != string(base.routes) {
+					res.AddViolation("routes-depend-on-earlier-generation-in-process", map[string]string{"first": variant}, fmt.Sprintf("[%s] routes file generated as the 2nd invocation of one process (1st: %s) differs from a fresh process: %s", p.Name, variant, firstLineDiff(string(base.routes), string(wroutes))), cs)
+				}
+			}
+		}
 		outputsSeen[fmt.Sprintf("spec-variants=%d routes-variants=%d", len(specVariants), len(routeVariants))]++
 		dist.Add(sizes["source-files"], sizes["loaded-packages"], sizes["find-by-kind"], len(p.Controllers), p.Config.OpenAPI)
 		if len(res.Samples) < 3 {
@@ -282,7 +331,8 @@ func c13(c *orch.Ctx) (*report.Result, error) {
 	for s, m := range distinctOrders {
 		orderCounts[s] = len(m)
 	}
-	res.Rule = fmt.Sprintf("%d multi-controller / multi-file / multi-package 'fullspec' projects (alternating 3.0.0/3.1.0); per accepted project: a canonical-order reference run, then for each hook-H1 site (source-files, loaded-packages, find-by-kind) every permutation when the site holds <=4 elements, otherwise %d seeded shuffles + the reversal, 6 joint shuffles of all three sites, %d hook-free runs in fresh processes (Go's own map randomisation; GOMAXPROCS 1/2/3 on every other one), four canonical-order runs under GOMAXPROCS 1/2/5/64 (parse schedule), the four other engines (spec only) and one run with the date comment; spec and routes bytes compared with the reference. distinct = distinct (site sizes, #controllers, version) tuples", nProj, nSample, nFree)
+	res.Rule = fmt.Sprintf("%d multi-controller / multi-file / multi-package 'fullspec' projects (alternating 3.0.0/3.1.0); per accepted project: a canonical-order reference run, then for each hook-H1 site (source-files, loaded-packages, find-by-kind) every permutation when the site holds <=4 elements, otherwise %d seeded shuffles + the reversal, 6 joint shuffles of all three sites, %d hook-free runs in fresh processes (Go's own map randomisation; GOMAXPROCS 1/2/3 on every other one), four canonical-order runs under GOMAXPROCS 1/2/5/64 (parse schedule), the four other engines (spec only), one run with the date comment, and one warm-process run (the same generation as the 2nd invocation inside one process whose 1st invocation used another engine or a template extension); spec and routes bytes compared with the reference. distinct = distinct (site sizes, #controllers, version) tuples", nProj, nSample, nFree)
+	res.Extra("warm_process_runs", warmRuns)
 	res.Extra("cli_runs", totalRuns)
 	res.Extra("distinct_orders_forced_per_site", orderCounts)
 	res.Extra("output_variants_per_project", outputsSeen)
